@@ -988,6 +988,30 @@ impl<'a, K: Hash + Eq, V> Guard<'a, K, V> {
     }
 }
 
+/// Verification hooks (only compiled with `--cfg avl_savefile_verif`): one event per step of the connection
+/// cache protocol, emitted while the protecting lock is held.
+#[cfg(avl_savefile_verif)]
+#[doc(hidden)]
+pub mod verif_hooks {
+    use std::sync::OnceLock;
+    /// The installed event sink, if any: (label, key)
+    pub static SINK: OnceLock<Box<dyn Fn(&'static str, u64) + Send + Sync>> = OnceLock::new();
+    /// Emit an event
+    #[inline]
+    pub fn at(label: &'static str, key: u64) {
+        if let Some(sink) = SINK.get() {
+            sink(label, key);
+        }
+    }
+    /// Emits an event when dropped (declared right after a lock guard, it is dropped right before it)
+    pub struct OnDrop(pub &'static str, pub u64);
+    impl Drop for OnDrop {
+        fn drop(&mut self) {
+            at(self.0, self.1);
+        }
+    }
+}
+
 /// Helper to determine if something is owned, or not
 #[derive(Debug, Clone, Copy)]
 pub enum Owning {
@@ -1357,7 +1381,17 @@ impl<T: AbiExportable + ?Sized + 'static> AbiConnection<T> {
         trait_name: &str,
     ) -> Result<unsafe extern "C" fn(flag: AbiProtocol), SavefileError> {
         let mut entry_guard = Guard::lock(&ENTRY_CACHE);
+        #[cfg(avl_savefile_verif)]
+        let _verif_unlock_e = {
+            verif_hooks::at("LockE", 0);
+            verif_hooks::OnDrop("UnlockE", 0)
+        };
         let mut lib_guard = Guard::lock(&LIBRARY_CACHE);
+        #[cfg(avl_savefile_verif)]
+        let _verif_unlock_l = {
+            verif_hooks::at("LockL", 0);
+            verif_hooks::OnDrop("UnlockL", 0)
+        };
 
         if let Some(item) = entry_guard.get(&(shared_library_path.to_string(), trait_name.to_string())) {
             return Ok(*item);
@@ -1517,8 +1551,18 @@ impl<T: AbiExportable + ?Sized + 'static> AbiConnection<T> {
         owning: Owning,
     ) -> Result<AbiConnection<T>, SavefileError> {
         let mut templates = Guard::lock(&ABI_CONNECTION_TEMPLATES);
+        #[cfg(avl_savefile_verif)]
+        let _verif_unlock = {
+            verif_hooks::at("LockT", remote_entry as usize as u64);
+            verif_hooks::OnDrop("UnlockT", remote_entry as usize as u64)
+        };
 
         let typeid = TypeId::of::<T>();
+        #[cfg(avl_savefile_verif)]
+        verif_hooks::at(
+            if templates.contains_key(&(typeid, remote_entry)) { "Hit" } else { "Miss" },
+            remote_entry as usize as u64,
+        );
         // In principle, it would be enough to key 'templates' based on 'remote_entry'.
         // However, if we do, and the user ever uses AbiConnection<T> with the _wrong_ entry point,
         // we risk poisoning the cache with erroneous data.
@@ -1537,6 +1581,8 @@ impl<T: AbiExportable + ?Sized + 'static> AbiConnection<T> {
                     });
                 }
 
+                #[cfg(avl_savefile_verif)]
+                verif_hooks::at("InterrogateVersion", remote_entry as usize as u64);
                 let effective_schema_version = callee_schema_version.min(CURRENT_SAVEFILE_LIB_VERSION);
                 let effective_version = own_version.min(callee_abi_version);
 
@@ -1574,6 +1620,8 @@ impl<T: AbiExportable + ?Sized + 'static> AbiConnection<T> {
                     });
                 }
 
+                #[cfg(avl_savefile_verif)]
+                verif_hooks::at("InterrogateMethods", remote_entry as usize as u64);
                 let callee_abi_native_definition = callee_abi_native_definition?;
                 let callee_abi_effective_definition = callee_abi_effective_definition?;
 
@@ -1588,6 +1636,8 @@ impl<T: AbiExportable + ?Sized + 'static> AbiConnection<T> {
                     own_native_definition,
                     callee_abi_native_definition,
                 )?;
+                #[cfg(avl_savefile_verif)]
+                verif_hooks::at("Insert", remote_entry as usize as u64);
                 vacant.insert(template).clone()
             }
         };
@@ -1595,6 +1645,8 @@ impl<T: AbiExportable + ?Sized + 'static> AbiConnection<T> {
         let trait_object = if let Some(obj) = trait_object {
             obj
         } else {
+            #[cfg(avl_savefile_verif)]
+            verif_hooks::at("CreateInstance", remote_entry as usize as u64);
             let mut trait_object = TraitObject::zero();
             let mut error_msg: String = Default::default();
             unsafe extern "C" fn error_callback(error_receiver: *mut (), error: *const AbiErrorMsg) {
